@@ -200,6 +200,16 @@ def run(rep: engine.Report, tier: str, seed: int):
     if rec_err:
         rep.notes.append(f"recorder errors: {rec_err[:3]}")
     rep.traces_validated = len(sel)
+    # unbounded-integer version of the range lemma (Apalache, SMT): all limits on the 1/400-px lattice
+    lemmas = {}
+    for inv, want in (("InRange", "NoError"), ("NonEmptyMesh", "NoError"), ("NonEmptyPcc", "NoError"), ("InRangeAsCoded", "Error")):
+        if quick and inv not in ("InRange", "NonEmptyPcc"):
+            continue
+        out, secs = engine.apalache("MeshLemma", inv)
+        lemmas[inv] = dict(outcome=out, expected=want, seconds=round(secs, 1))
+        if out != "unavailable" and out != want:
+            raise engine.MachineryError(f"Apalache lemma {inv}: outcome {out}, expected {want} (the search model no longer satisfies its own lemma)")
+    rep.extra["apalache_lemmas"] = lemmas
     if not quick:
         ev2 = record_repo_tests(rep)
         judge_events(rep, ev2, _descr_factory({}), "repo")
